@@ -51,7 +51,7 @@ func c09Setup(prm c09Params) func(c *fw.Ctx, name string) explore.Setup {
 		return func(w *vs.World) func(bool) {
 			st := &c09State{p: vpipe.New(), blockedReturned: map[string]bool{}}
 			k := prm.K
-			if prm.State == "writer" {
+			if prm.State == "writer" || prm.State == "writer-big" {
 				st.p.Window = 64
 			}
 			w.GoHarness("main", true, func() {
@@ -96,6 +96,11 @@ func c09Setup(prm c09Params) func(c *fw.Ctx, name string) explore.Setup {
 						st.ctxDoneAt = w.Now
 						st.ctxDone = true
 					})
+				case "readlimit-failed":
+					// a message over the read limit made a Read fail (Close frame 1009 written)
+					conn.SetReadLimit(16)
+					st.p.Send(peerData(k, frame.OpBinary, true, fill(0xC5, 40)))
+					conn.Read(bg)
 				case "closeread-twice":
 					// CloseRead is idempotent: the context of a later call is cancelled as well
 					conn.CloseRead(bg)
@@ -183,6 +188,9 @@ func c09Setup(prm c09Params) func(c *fw.Ctx, name string) explore.Setup {
 					})
 				case "writer":
 					blocked("writer", func() { conn.Write(bg, websocket.MessageBinary, fill(0xA7, 200)) })
+				case "writer-big":
+					// more than two write buffers: the transport is touched while the payload is copied
+					blocked("writer", func() { conn.Write(bg, websocket.MessageBinary, fill(0xA8, 9000)) })
 				case "ping":
 					blocked("pinger", func() { conn.Ping(bg) })
 				case "netconn-deadline-moved":
@@ -254,6 +262,10 @@ func c09Oracle(c *fw.Ctx, w *vs.World, name string, prm c09Params, st *c09State)
 		violate(c, w, name, "C09/CloseNow-not-prompt/"+locus, fmt.Sprintf("CloseNow returned after %v of virtual time: %v", time.Duration(dt), st.actErr))
 		return
 	}
+	if !st.p.Closed {
+		violate(c, w, name, "C09/connection-open-after-"+prm.Action+"/"+locus, fmt.Sprintf("%s returned (%v) but the transport was never closed: calls blocked on the connection stay blocked", prm.Action, st.actErr))
+		return
+	}
 	if w.Deadlock || w.HorizonHit {
 		violate(c, w, name, "C09/blocked-call-never-returns/"+locus, fmt.Sprintf("the connection is closed but tasks %v never return", stuckTasks(w)))
 		return
@@ -278,7 +290,7 @@ func c09Scenarios(tier string) []scenario {
 	if tier == "thorough" {
 		advs = append(advs, adv{"stallHeader", 2}, adv{"stallHeader", 3}, adv{"stallHeader", 5}, adv{"stallPayload", 1}, adv{"stallPayload", 50}, adv{"stallPayload", 99})
 	}
-	states := []string{"idle", "reader", "halfread", "halfread-reread", "closeread", "closeread-data", "closeread-twice", "peerclosed-closeread", "ctxclosed-closeread", "writer", "ping", "netconn-deadline-moved"}
+	states := []string{"idle", "reader", "halfread", "halfread-reread", "closeread", "closeread-data", "closeread-twice", "peerclosed-closeread", "ctxclosed-closeread", "writer", "writer-big", "readlimit-failed", "ping", "netconn-deadline-moved"}
 	for _, k := range []connCfg{{Client: false}, {Client: true}} {
 		for _, a := range advs {
 			for _, s := range states {
